@@ -8,12 +8,14 @@ from pyvc.sym import *
 from pyvc.types import *
 
 
-def returns(ty, name="ret"):
-    """callee contract: no effect, returns an arbitrary value of type ty"""
+def returns(ty, name="ret", native_real=False):
+    """callee contract: no effect, returns an arbitrary value of type ty.  native_real: in a native
+    replay the real callee is simply left in place (harmless, e.g. sys.stdout.isatty)"""
 
     def h(I, args, kwargs):
         return I.make(ty, name)
 
+    h.native_real = native_real
     return h
 
 
